@@ -343,8 +343,9 @@ func (w *World) boundedFormula(gen *LeafGen, atoms, quants []int, maxBranches, m
 // own path and with a body of one atom (sibling j: kind kinds[(j+offset) mod len]). Every quantified expression of
 // a validation is translated with its own variable, handed out in the order of writing: the sweep puts every kind of
 // atomic constraint at every position of that order. Target k (k < n) falsifies exactly sibling k, target n none,
-// so that a wrong verdict of one sibling is not masked by another.
-func NewSiblingWorld(r *rand.Rand, base, n, offset int, kinds []AtomKind) (*World, F) {
+// so that a wrong verdict of one sibling is not masked by another (disj: the siblings are the operands of one `or`,
+// target k satisfies exactly sibling k and target n none).
+func NewSiblingWorld(r *rand.Rand, base, n, offset int, kinds []AtomKind, disj bool) (*World, F) {
 	w := &World{Base: base, G: NewGraph(), Truth: map[string]map[int]bool{}, Pfx: map[string]string{"ex": EX}, R: r}
 	neg := make([]bool, n)      // the sibling is written under `not`
 	innerNeg := make([]bool, n) // the body is the negated atom
@@ -370,7 +371,11 @@ func NewSiblingWorld(r *rand.Rand, base, n, offset int, kinds []AtomKind) (*Worl
 		t := w.newNode(fmt.Sprintf("T%d", base))
 		w.Truth[t.ID] = map[int]bool{}
 		for j := 0; j < n; j++ {
-			quantTruth := (j != k) != neg[j]
+			litTruth := j != k // conjunction: target k falsifies exactly sibling k, target n none
+			if disj {
+				litTruth = j == k // disjunction: target k satisfies exactly sibling k, target n none (the only one reported)
+			}
+			quantTruth := litTruth != neg[j]
 			var bodies []bool // truth of the body on each reached node
 			switch w.Quants[j].Kind {
 			case "nested":
@@ -395,6 +400,9 @@ func NewSiblingWorld(r *rand.Rand, base, n, offset int, kinds []AtomKind) (*Worl
 				t.Add(fmt.Sprintf("%sc%dx%d", EX, base, j), RefV(c.ID))
 			}
 		}
+	}
+	if disj {
+		return w, FOr{lits}
 	}
 	return w, FAnd{lits}
 }
